@@ -382,6 +382,8 @@ ASSUMPTIONS = [
     'A-EPOCH: the abstract view of an unordered dataset is the order of the epoch being frozen/iterated',
     'dataset lengths and contents do not change while a method runs (no external mutation of the examples container)',
     'lists are referenced through one local name (aliasing of mutable lists is outside the subset: Unsupported)',
+    'A-FSTRING: f-strings (messages) are not evaluated: an exception or side effect inside a message expression is not modelled',
+    'A-NESTED: a two-generator comprehension over range(n(x)) is encoded by the bijection between flat indices and (outer, inner) pairs and its length sum n(x)',
 ]
 
 _NUMPY = 'assumed contract of numpy indexing: np.arange(n)[spec,] normalises slices / integer lists / arrays into positions within [0,n), raises IndexError otherwise, advanced indexing returns a new array, iteration reads the live buffer'
@@ -390,13 +392,13 @@ _QUEUE = 'assumed: queue.Queue is a linearisable bounded FIFO; Thread.join retur
 _RNG = 'assumed numpy RNG contract: rng.shuffle permutes in place by a bijection determined by the generator state; choice(n, size, replace=False) returns distinct indices; equal states give equal draws'
 _PICKLE = 'assumed: pickle.loads(pickle.dumps(x)) / deepcopy(x) is value-equal and deep-fresh; dumps returns immutable bytes'
 PROP_ASSUMPTIONS = {
-    'C01': [_NUMPY, 'operator.itemgetter / zip / map / enumerate: textbook semantics (zip stated for equal lengths: an obligation at the call site)', 'IntersperseDataset.__init__ establishes ORDER: bounded stand-in only', 'KeyZipDataset.__init__ invariant (equal key sets) assumed, not proved'],
+    'C01': [_NUMPY, 'operator.itemgetter / zip / map / enumerate: textbook semantics (zip stated for equal lengths: an obligation at the call site)', 'assumed: sorted(list of (float, int, int)) is a permutation of its argument in lexicographic order; float division treated as exact rational division (IntersperseDataset.__init__)', 'python sets of keys as membership predicates; len(set) == 0 iff it has no member (KeyZipDataset.__init__)'],
     'C02': [_NUMPY, 'BatchDataset batch_size >= 1 (precondition of the stage, not checked by the constructor)'],
     'C03': [_NUMPY, 'all positions carrying one key denote the same example (I-key)'],
     'C04': [_EXEC, _QUEUE, 'dill.loads(dill.dumps(x)) == x'],
     'C05': [_EXEC, _QUEUE], 'C06': [_EXEC, _QUEUE, 'A-FRESH for the private sentinel'], 'C07': [_EXEC, _QUEUE],
     'C08': ['builtin map and zip are lazy (one application / pull per element, when the element is pulled)'],
-    'C09': [_PICKLE, 'NumpySerializedList (wu mode): only the bounded stand-in'],
+    'C09': [_PICKLE, 'NumpySerializedList representation invariant (_addr = cumulative end offsets of the pickled examples in _lst) is established by numpy cumsum/concatenate in __init__: assumed for the proof of __getitem__, exercised by the bounded wu scenario'],
     'C10': [_PICKLE, 'psutil.virtual_memory() returns arbitrary values at every call', 'accesses to one position are not concurrent'],
     'C11': ['assumed: diskcache.Cache is a durable atomic key -> value map (a store interrupted by a kill is absent or complete); CPython runs __del__ when the last reference is dropped; pathlib/shutil semantics'],
     'C12': [_RNG, _NUMPY], 'C13': [_RNG, _NUMPY],
@@ -404,8 +406,8 @@ PROP_ASSUMPTIONS = {
     'C15': ['assumed: np.array_split(np.arange(n), k) yields k consecutive ranges, the first n mod k one longer (conformance: bounded-split)'],
     'C16': ['induction schema for the inductive laws (base and step are discharged)'],
     'C17': ['len_key is total, deterministic and positive; 0 <= max_padding_rate < 1; batch_size >= 1'],
-    'C18': ['assumed: sort_fn (default sorted) returns a permutation of its argument ordered by the elements, reverse reverses the order'],
-    'C19': ['dictionary contents are opaque; key presence is an arbitrary boolean per dictionary and key; WeakValueDictionary / json / pickle of JsonDatabase not modelled'],
+    'C18': ['assumed: sort_fn (default sorted) returns a permutation of its argument ordered by the elements, reverse reverses the order', 'assumed: itertools.groupby yields consecutive non-empty runs of equal key covering the sequence; defaultdict(list) inserts an empty list on a missing key; group ids are compared by value equality (hash consistent with ==)'],
+    'C19': ['dictionary contents are opaque; key presence is an arbitrary boolean per dictionary and key', 'assumed: WeakValueDictionary behaves as a dict over the entries still alive (an entry may vanish between two requests, not inside one); pathlib.Path / read_text / json.loads are functions of their argument that may raise; get_examples / from_dict / concatenate are used through their own contracts'],
     'C20': ['time.perf_counter returns arbitrary reals'],
 }
 
